@@ -616,10 +616,13 @@ type caseBudget struct {
 	scheds           int // drawn send-interleaved schedules per number of leaves (run at the root; the first one also at the intermediate node)
 	// orderBy: tie-prone data, every statement has an order by clause (TestOrderByLayoutIndependence)
 	orderBy bool
+	// skewFields: under one of the layouts a node never saw some fields of the first metric, statements are mostly
+	// `select * ... group by` (TestGroupByFieldsANodeNeverSaw)
+	skewFields bool
 }
 
 func runCase(t *rapid.T, group string, b caseBudget) {
-	d := genDatasetWith(t, b.orderBy)
+	d := genDatasetWith(t, dataOpt{ties: b.orderBy, skew: b.skewFields})
 	// Storage state is no part of this property (C11/C03): every layout keeps its rows in the memory
 	// database. (On the tree the harness was written against, flushing loses the points of one of two
 	// families of a shard and can store a field of a series that reports only some fields under
@@ -629,10 +632,26 @@ func runCase(t *rapid.T, group string, b caseBudget) {
 	for i := 0; i < nl; i++ {
 		layouts = append(layouts, genLayout(t))
 	}
+	mode := modeDefault
+	switch {
+	case b.orderBy:
+		mode = modeOrder
+	case b.skewFields:
+		mode = modeSkew
+	}
+	if b.skewFields || (mode == modeDefault && !d.Wide && rapid.IntRange(0, 5).Draw(t, "fieldsFollowNodes") == 3) {
+		// one of the layouts with >= 2 nodes decides which series of the first metric report which fields
+		for _, l := range layouts[1:] {
+			if skewFieldsByNode(t, d, l) {
+				ev.Class(group, "case:fields-of-the-first-metric-follow-the-nodes-of-one-layout", 1)
+				break
+			}
+		}
+	}
 	var queries []*querySpec
 	nq := rapid.IntRange(1, b.queries).Draw(t, "nQueries")
 	for i := 0; i < nq; i++ {
-		if q := genQueryWith(t, d, group, b.orderBy); q != nil {
+		if q := genQueryWith(t, d, group, mode); q != nil {
 			queries = append(queries, q)
 		}
 	}
@@ -834,6 +853,10 @@ func (e *env) runLayout(q *querySpec, sql string, m *modelOut, ref node.Result, 
 	classes = append(classes, fmt.Sprintf("layout:shards=%d", l.Shards), fmt.Sprintf("layout:leaves=%d", nLeaves))
 	if len(q.GroupBy) > 0 && l.shardWithoutGroupKey(e.d, q) {
 		classes = append(classes, "layout:a-shard-holds-only-series-without-the-group-key-next-to-a-shard-with")
+	}
+	if n := l.lateFieldGroups(e.d, q); n > 0 {
+		// every delivery order is run: in some of them the answer of the node without the field is merged first
+		classes = append(classes, "fields:select-*-group-by:node-without-a-field-shares-groups-with-nodes-that-have-it="+bucket(n, 2, 3, 5))
 	}
 	ambDiffers := 0
 
